@@ -337,7 +337,7 @@ def rule_fk_target_key(spec, ospecs, res):
         for key, name in kn:
             s = re.sub(r"(\"|`|\[)?%s(\"|`|\])?" % re.escape(key), "\u00a7col", s)
             for nm in sorted({x for v in (name, name.replace("%", "%%"), name.replace("\t", "    ")) for x in (v, v.replace('"', '""'), v.replace("`", "``"), v.replace("]", "]]"))}, key=len, reverse=True):
-                s = re.sub(r"REFERENCES (%s) \(((?:[^()]*, )?)(\"|`|\[)?%s(\"|`|\])?" % (_REF, re.escape(nm)), "REFERENCES \\1 (\\2\u00a7col", s, flags=re.S)
+                s = re.sub(r"REFERENCES (%s) \(((?:%s, )*)(\"|`|\[)?%s(\"|`|\])?" % (_REF, _IDENT, re.escape(nm)), "REFERENCES \\1 (\\2\u00a7col", s, flags=re.S)
         return s
 
     return n
